@@ -292,6 +292,37 @@ def obligations(bld, vfile):
     return res
 
 
+def coqchk(vfile, timeout=3600):
+    """Thorough tier: re-check the compiled property file and everything it depends on with the independent checker
+    and list the axioms of the whole context (`coqchk -o`).  Returns dict(ok, axioms, bad, wall, detail)."""
+    mod = "PyUbx." + os.path.splitext(os.path.basename(vfile))[0]
+    t0 = time.time()
+    try:
+        p = subprocess.run("ulimit -s unlimited 2>/dev/null; coqchk -silent -o -Q model PyUbx -Q gen PyUbx -Q proofs PyUbx -Q props PyUbx %s" % mod,
+                           shell=True, cwd=COQ, stdout=subprocess.PIPE, stderr=subprocess.STDOUT, timeout=timeout)
+        out = p.stdout.decode("utf-8", "replace")
+        rc = p.returncode
+    except subprocess.TimeoutExpired:
+        return {"ok": False, "axioms": [], "bad": [], "wall": round(time.time() - t0, 1), "detail": "coqchk timeout", "cmd": "coqchk -o " + mod}
+    axioms, sect = [], None
+    other = {}
+    for line in out.splitlines():
+        m = re.match(r"^\* ([^:]+):\s*(.*)$", line)
+        if m:
+            sect = m.group(1).strip()
+            rest = m.group(2).strip()
+            other[sect] = [] if rest in ("", "<none>") else [rest]
+            continue
+        if sect and line.startswith("    ") and line.strip():
+            other.setdefault(sect, []).append(line.strip())
+    axioms = other.get("Axioms", [])
+    bad = [a for a in axioms if a.split(".")[-1] not in ALLOWED_AXIOMS and ".".join(a.split(".")[-2:]) not in ALLOWED_AXIOMS]
+    unsafe = [k for k in other if k != "Axioms" and k != "Theory" and other[k]]
+    ok = rc == 0 and not bad and not unsafe and "CONTEXT SUMMARY" in out
+    return {"ok": ok, "axioms": axioms, "bad": bad + unsafe, "wall": round(time.time() - t0, 1),
+            "detail": "" if ok else out[-600:], "cmd": "coqchk -silent -o " + mod}
+
+
 def parse_assumptions(out):
     """Split coqc output into one list of axioms per Print Assumptions command."""
     blocks = []
